@@ -412,7 +412,8 @@ def main(argv):
     rep.cov['rule'] = RULE
     rep.assumptions = ['real-number semantics in theorems; monitors recompute ε in doubles in the documented order']
     sols = adapters()
-    modules, gens, extra, drivers = multiloop.stage_inputs('C06', sols)
+    modules, gens, extra, drivers = multiloop.stage_inputs('C06', sols, ['Alpaqa.Props.C06_Panoc'])
+    modules = [m for m in modules if m != 'Alpaqa.Props.C06']        # the kernel-level module: checks/c06.py
     ps = C.proof_stage(rep, 'C06', gens, modules, driver=None, extra_sources=extra, extra_targets=drivers)
     broken = list(ps['broken'])
     found = loop_stage(rep, broken, tier, sols)
